@@ -325,6 +325,35 @@ pub proof fn lemma_flip_involution<T>(c: Seq<T>, colm: Seq<T>, args: Seq<usize>)
     }
 }
 
+/// `swap` (Vec::swap(n-1, n-2) in stack_fwd / stack_inv) is the big swap roll=2,1 and is involutory,
+/// so it is its own inverse (what stack_inv runs for it)
+pub proof fn lemma_swap_is_roll_2_1<T>(st: Seq<T>)
+    requires st.len() >= 2,
+    ensures
+        rolled(st, 2, 1) =~= st.update(st.len() - 1, st[st.len() - 2]).update(st.len() - 2, st[st.len() - 1]),
+        rolled(rolled(st, 2, 1), 2, 1) =~= st,
+{
+}
+
+/// unroll=m,n (= roll=m,m-n) followed by roll=m,n is the identity as well: roll and unroll are mutually inverse
+pub proof fn lemma_unroll_inverse<T>(st: Seq<T>, m: int, n: int)
+    requires 1 <= m <= st.len(), 0 <= n <= m,
+    ensures rot(rot(st, m, m - n), m, n) =~= st,
+{
+    lemma_roll_inverse(st, m, m - n);
+}
+
+/// roll leaves everything below the m-element sub-stack alone and only permutes inside it (frame of the big swap)
+pub proof fn lemma_roll_frame<T>(st: Seq<T>, m: int, n: int)
+    requires 1 <= m <= st.len(), 0 <= n <= m,
+    ensures
+        rolled(st, m, n).len() == st.len(),
+        forall|d: int| 0 <= d < st.len() - m ==> #[trigger] rolled(st, m, n)[d] == st[d],
+        forall|d: int| st.len() - m <= d < st.len() - m + n ==> #[trigger] rolled(st, m, n)[d] == st[d + (m - n)],
+        forall|d: int| st.len() - m + n <= d < st.len() ==> #[trigger] rolled(st, m, n)[d] == st[d - n],
+{
+}
+
 } // mod sm
 use sm::*;
 broadcast use {ax::axiom_iter_seq_vec, sm::lemma_flip_len, sm::lemma_pop_len};
